@@ -103,6 +103,7 @@ type pstate struct {
 	stackS  string
 	defers  [][]Event
 	loopOrd map[string]int
+	fields  map[types.Object]string // variable -> field id of the struct field it aliases
 }
 
 func (s *pstate) fork() *pstate {
@@ -110,6 +111,10 @@ func (s *pstate) fork() *pstate {
 		env: make(map[types.Object]string, len(s.env)), consts: make(map[types.Object]*types.Const, len(s.consts)),
 		ver: make(map[string]int, len(s.ver)), count: make(map[string]int, len(s.count)),
 		events: s.events, stackS: s.stackS, loopOrd: make(map[string]int, len(s.loopOrd)),
+		fields: make(map[types.Object]string, len(s.fields)),
+	}
+	for k, v := range s.fields {
+		n.fields[k] = v
 	}
 	for k, v := range s.env {
 		n.env[k] = v
@@ -187,7 +192,7 @@ func (w *Walker) EnumerateFunc(fn *FuncInfo) ([]*Path, error) {
 	w.paths = nil
 	w.root = fn
 	w.rootLit = nil
-	st := &pstate{env: map[types.Object]string{}, consts: map[types.Object]*types.Const{}, ver: map[string]int{}, count: map[string]int{}, loopOrd: map[string]int{}}
+	st := &pstate{env: map[types.Object]string{}, consts: map[types.Object]*types.Const{}, ver: map[string]int{}, count: map[string]int{}, loopOrd: map[string]int{}, fields: map[types.Object]string{}}
 	st.stack = []*FuncInfo{fn}
 	st.defers = [][]Event{nil}
 	w.bindRootParams(fn.Decl.Recv, fn.Decl.Type, fn.Pkg.TypesInfo, st)
@@ -211,7 +216,7 @@ func (w *Walker) EnumerateLit(lr *LitRoot) ([]*Path, error) {
 	w.paths = nil
 	w.root = lr.Owner
 	w.rootLit = lr.Lit
-	st := &pstate{env: map[types.Object]string{}, consts: map[types.Object]*types.Const{}, ver: map[string]int{}, count: map[string]int{}, loopOrd: map[string]int{}}
+	st := &pstate{env: map[types.Object]string{}, consts: map[types.Object]*types.Const{}, ver: map[string]int{}, count: map[string]int{}, loopOrd: map[string]int{}, fields: map[types.Object]string{}}
 	st.stack = []*FuncInfo{lr.Owner}
 	st.defers = [][]Event{nil}
 	w.bindRootParams(nil, lr.Lit.Type, lr.Owner.Pkg.TypesInfo, st)
@@ -711,6 +716,14 @@ func (w *Walker) writeRHS(lhs ast.Expr, val string, cst *types.Const, rhsExpr as
 			return st
 		}
 		if v, isVar := obj.(*types.Var); isVar && !v.IsField() && obj.Parent() != nil && obj.Parent() != obj.Pkg().Scope() {
+			delete(st.fields, obj)
+			if rhsExpr != nil {
+				if f := FieldID(c.info, rhsExpr); f != "" {
+					st.fields[obj] = f
+				} else if f := w.aliasFieldID(rhsExpr, st, c); f != "" {
+					st.fields[obj] = f
+				}
+			}
 			st.env[obj] = val
 			if cst != nil {
 				st.consts[obj] = cst
@@ -729,12 +742,31 @@ func (w *Walker) writeRHS(lhs ast.Expr, val string, cst *types.Const, rhsExpr as
 	}
 	base := w.rawPath(lhs, st, c)
 	field := w.fieldID(lhs, c)
+	if field == "" {
+		field = w.aliasFieldID(lhs, st, c)
+	}
 	st = w.emit(st, Event{Kind: EvWrite, Pos: node.Pos(), Node: node, Field: field, LHS: base, RHS: val, RHSConst: cst, Op: op})
 	if rhsExpr != nil {
 		st = w.litWrites(rhsExpr, base, node, st, c)
 	}
 	w.bump(lhs, base, st, c)
 	return st
+}
+
+// aliasFieldID resolves the field a variable-rooted expression denotes when the variable is a
+// parameter or local bound to a struct field (values[k] with values := config.Values).
+func (w *Walker) aliasFieldID(e ast.Expr, st *pstate, c *ctl) string {
+	switch y := ast.Unparen(e).(type) {
+	case *ast.Ident:
+		if obj := c.info.Uses[y]; obj != nil {
+			return st.fields[obj]
+		}
+	case *ast.IndexExpr:
+		if f := w.aliasFieldID(y.X, st, c); f != "" {
+			return f + "[]"
+		}
+	}
+	return ""
 }
 
 // bump starts a new version of the written path (for index expressions: of the collection).
@@ -1597,6 +1629,12 @@ func (w *Walker) call(call *ast.CallExpr, st *pstate, c *ctl, k func(*pstate, []
 				continue
 			}
 			if o != nil && i < len(args) {
+				delete(st.fields, o)
+				if f := FieldID(c.info, call.Args[i]); f != "" {
+					st.fields[o] = f
+				} else if f := w.aliasFieldID(call.Args[i], st, c); f != "" {
+					st.fields[o] = f
+				}
 				st.env[o] = args[i]
 				if argc[i] != nil {
 					st.consts[o] = argc[i]
@@ -1620,7 +1658,12 @@ func (w *Walker) call(call *ast.CallExpr, st *pstate, c *ctl, k func(*pstate, []
 	for _, o := range cc.named {
 		st.env[o] = "zero(" + w.typeStr(o.Type()) + ")"
 	}
+	loopDepth := len(st.loops)
 	leave := func(s *pstate, res []string) {
+		// a return from inside a loop of the callee leaves that loop
+		if len(s.loops) > loopDepth {
+			s.loops = s.loops[:loopDepth]
+		}
 		s = w.runDefers(s)
 		s.defers = s.defers[:len(s.defers)-1]
 		s.stack = s.stack[:len(s.stack)-1]
